@@ -89,8 +89,18 @@ IterWhy(r) == IF r.st # "ok" THEN "panic in transition iterator"
 \* ---- load: jiff refused a zone the independent reader accepts ----------------
 LoadWhy(r) == "zone refused: " \o r.msg
 
+\* C18: a name in any letter case finds the zone, which reports the canonical spelling
+\* and is the same zone; the database lists it
+LookupWhy(r) ==
+  IF r.st = "panic" THEN "time zone lookup panicked"
+  ELSE IF r.st # "ok" THEN (IF r.cls = "available" THEN "the database does not list the zone" ELSE "lookup by name is not case-insensitive")
+  ELSE IF r.got # r.want THEN "lookup does not return the canonical spelling"
+  ELSE IF r.same # 1 THEN "lookup in another letter case returned a different zone"
+  ELSE ""
+
 Why(r) ==
   CASE r.op = "zone" -> ""
+    [] r.op = "lookup" -> LookupWhy(r)
     [] r.op = "info" -> InfoWhy(r)
     [] r.op = "amb"  -> AmbWhy(r)
     [] r.op = "iter" -> IterWhy(r)
